@@ -14,8 +14,8 @@ META = {
     ],
     "assumptions": [
         "Close is called by the writer goroutine after its last write (one writer); rotations never fail",
-        "partial: mutex_free / later_requests hold while no preload-hint closure has taken its closed exit (F1); "
-        "all_terminate holds for every requester that is not asleep, and c07_stuck_only_f2 characterises the sleepers (F2)",
+        "own-step progress is stated from states where the mutex is free (another handler inside its critical section "
+        "first needs its own steps); hint_prop (path table) is proved reachable for the Low-Latency variant",
     ],
 }
 
